@@ -12,6 +12,32 @@ STACK_THEOREMS += ['FlexVerif.C11StackC99.' + t for t in ('push_same', 'pop_same
 STACK_THEOREMS += ['FlexVerif.C11ScanBuf.' + t for t in ('scanBuffer_shape', 'guard_eval', 'scanBuffer_refuses', 'scanBuffer_accepts',
                                                          'scanned_fields', 'scanBuffer_spec')]
 
+FLUSH_THEOREMS = ['FlexVerif.C11Flush.' + t for t in ('flush_null', 'flush_spec', 'init_spec')]
+STACK_THEOREMS += FLUSH_THEOREMS
+
+
+def regen_flush():
+    """translate yy_flush_buffer() / yy_load_buffer_state() / yy_init_buffer() of a scanner flex generates now into
+    lean/FlexVerif/Gen/Flush.lean"""
+    import os, fcntl
+    from . import flexrun, gen_flush, common
+    flex, src = flexrun.build_flex()
+    try:
+        body, info = gen_flush.generate(flex, flexrun.scratch_root())
+    except gen_flush.TranslateError as e:
+        return None, str(e)
+    path = os.path.join(common.LEAN_DIR, 'FlexVerif', 'Gen', 'Flush.lean')
+    lock = open(os.path.join(common.LEAN_DIR, '.build.lock'), 'w')
+    fcntl.flock(lock, fcntl.LOCK_EX)
+    try:
+        old = open(path).read() if os.path.exists(path) else ''
+        if old != body:
+            open(path, 'w').write(body)
+    finally:
+        fcntl.flock(lock, fcntl.LOCK_UN)
+        lock.close()
+    return info, None
+
 
 def regen_scanbuf():
     """translate yy_scan_buffer() of a scanner flex generates now into lean/FlexVerif/Gen/ScanBuf.lean"""
@@ -63,6 +89,9 @@ def regen_bufstack():
 
 
 def run(ctx):
+    info3, err3 = regen_flush()
+    if err3:
+        ctx.violation('translator of yy_flush_buffer() / yy_init_buffer() gave up: ' + err3, {'error': err3}, no_input=True)
     info2, err2 = regen_scanbuf()
     if err2:
         ctx.violation('translator of yy_scan_buffer() gave up: ' + err2, {'error': err2}, no_input=True)
